@@ -22,6 +22,8 @@ func init() {
 		Rule{ID: "R13c", Doc: "over-limit => REFUSED; counter balanced", Floor: 4, Run: r13c},
 		Rule{ID: "R13d", Doc: "gnet partial-read state invariants", Floor: 10, Run: r13d},
 		Rule{ID: "R20a", Doc: "a response buffer is not written to the stream after it was released (a recycled buffer corrupts the frame; shared with C20)", Floor: 60, Run: r20a},
+		Rule{ID: "R09c", Doc: "stream responses are packed under the 65535 limit so that the 16-bit length prefix cannot wrap (shared with C09)", Floor: 6, Run: r09c},
+		Rule{ID: "R06c", Doc: "ReadMsgFromTCP reads the 2-byte prefix and the body with io.ReadFull (a short read must not be taken for a frame; shared with C06)", Floor: 6, AllVariants: true, Run: r06c},
 	)
 	reg("C19", "Structural necessary conditions of single-flight, non-delaying prefetch, decided for all paths: "+
 		"(R19a) the refresh goroutine is started only on the `reserve(key) == true` edge, exactly once, and calls done(key) with the same key on every path; reserve is a test-and-set and done a delete, both under the mutex, and nothing else writes the in-flight set; "+
@@ -581,8 +583,10 @@ func r19d(c *core.Ctx) {
 	}
 	for _, ret := range returnsOf(fn) {
 		e := core.Expr(ret.Results[0])
-		want := "(time.Until(expireTime) < (expireTime.Sub(storedTime) >> 2))"
-		c.Check(e == want, "window", ret.Pos(), fn, "needPrefetch = remaining lifetime < a quarter of the entry's own lifespan (expire - stored)", e)
+		cm, isCmp := core.CmpOf(ret.Results[0])
+		quarter := map[string]bool{"(expireTime.Sub(storedTime) >> 2)": true, "(expireTime.Sub(storedTime) / 4)": true}
+		okW := isCmp && cm.Op == "<" && !cm.Neg && cm.X == "time.Until(expireTime)" && quarter[cm.Y]
+		c.Check(okW, "window", ret.Pos(), fn, "needPrefetch = remaining lifetime < a quarter of the entry's own lifespan (expire - stored)", e)
 	}
 }
 
